@@ -230,6 +230,9 @@ class ValueSpecBase(ValueSpec):
         raise TypeError(f'{self!r} cannot extend {self!r}: '
                         f'no compatible type found in Union.')
       base = base_counterpart
+      if base.frozen and (not self.frozen or self.default != base.default):
+        raise TypeError(
+            f'{self!r} cannot extend a frozen value spec: {base!r}')
 
     if not isinstance(self, (base.__class__, Enum)):
       raise TypeError(f'{self!r} cannot extend {base!r}: incompatible type.')
